@@ -264,9 +264,11 @@ def gen_rf(ctx):
     # packet without RF4CE layer
     cases.append({"mode": "nohdr", "key": rb(rng, 16).hex(), "fctl": 0x2c, "payload": "", "expect": "nohdr"})
     # sweeps
-    sw = [("nwk", 1, 3), ("mac", 2, 2), ("fcs", 3, 1)]
+    # every value of the 2-bit frame type (0 = reserved: no profile/vendor header, payload right after the
+    # frame counter) with a non-empty payload, so that every payload bit of every frame type is flipped
+    sw = [("nwk", 1, 3), ("mac", 2, 2), ("fcs", 3, 1), ("nwk", 0, 4)]
     if ctx.thorough:
-        sw += [("nwk", 2, 20), ("nwk", 3, 0), ("mac", 1, 17), ("fcs", 0, 5)]
+        sw += [("nwk", 2, 20), ("nwk", 3, 0), ("mac", 1, 17), ("fcs", 0, 5), ("mac", 0, 18), ("nwk", 0, 1)]
     for mode, ft, npl in sw:
         cases.append(rf_case(rng, mode, ft, 1, npl, sweep=True))
     return cases
